@@ -64,6 +64,8 @@ EXTS = [
 CONDS = [
     [_rule("r0", C1, 2, "a or b"), _rule("r1", C2, 5, "minimum(2,[a,b])"),
      _rule("r2", C1, 5, "a and not c"), _rule("r3", C2, 2, "cds(a and b)")],
+    # a negated cds(): only the reach of the neighbour scan inside CDSCondition decides (seed C03-11)
+    [_rule("r0", C1, 2, "c and not cds(a and b)"), _rule("r1", C2, 5, "c and not cds(a and b)")],
 ]
 
 
